@@ -36,6 +36,25 @@ theorem C08_handler_fails (cfg : Cfg) (dict : Lookup) (frames : List Bytes) (req
   rw [g4, serve]
   simp [hd, ServeLog.prepend]
 
+/-- **C08, unencodable answer at position k.** The handler returns an answer that cannot be represented on the wire (C05):
+nothing of it is written - not a truncated or length-inconsistent frame - and the loop ends; the first `k` answers are
+on the stream, complete. -/
+theorem C08_answer_unencodable (cfg : Cfg) (dict : Lookup) (frames : List Bytes) (reqs answers : List Msg)
+    (f : Bytes) (req ans : Msg) (later : Bytes) (hs : List HRes) (evs : List REv) (w : List WEv)
+    (hl1 : frames.length = reqs.length) (hl2 : answers.length = reqs.length)
+    (hacc : ∀ i (h1 : i < frames.length) (h2 : i < reqs.length), Accepts cfg dict frames[i] reqs[i])
+    (henc : ∀ a ∈ answers, a.enc.err = none) (hf : Accepts cfg dict f req) (hbad : ans.enc.err ≠ none)
+    (hne : noEmpty evs) (hflat : flat evs = frames.flatten ++ (f ++ later)) (hw : neverFails w) :
+    (serve cfg dict (answers.map .ok ++ .ok ans :: hs) evs w).calls = reqs ++ [req] ∧
+    (serve cfg dict (answers.map .ok ++ .ok ans :: hs) evs w).written = (answers.map (fun a => a.enc.bytes)).flatten := by
+  obtain ⟨evs', w', g1, g2, _, g4⟩ := serve_prefix cfg dict frames reqs answers (.ok ans :: hs) evs (f ++ later) w
+    hl1 hl2 hacc henc hne hflat hw
+  obtain ⟨evs2, hd, _, _⟩ := Codec.decode_frame cfg dict evs' f later req g2 g1 hf
+  rw [g4, serve]
+  cases he : ans.enc.err with
+  | none => exact absurd he hbad
+  | some e => simp [hd, he, ServeLog.prepend]
+
 /-- **C08, malformed frame at position k.** After `k` good exchanges the stream continues with octets the stream
 reader refuses (however they are delivered): the handler has been called for exactly the `k` requests before, exactly
 their answers are written, and no later request reaches the handler. -/
